@@ -119,7 +119,7 @@ func smallScenarios() []smallScenario {
 		"stat " + h("/"), "lstat " + h("/"), "readdir " + h("/"), "stat " + h("/tmp"), "chmod " + h("/tmp") + " 448", "mkdir " + h("/tmp/x") + " 493",
 		"chdir " + h("/tmp"), "stat " + h("."), "stat " + h(".."), "openfile " + h("/") + " 0 0"}
 	return []smallScenario{
-		{"root-perm", nil, rpAlpha, 4, 5},
+		{"root-perm", nil, rpAlpha, 4, 4},
 		{"views", vwSetup, vwAlpha, 3, 4},
 		{"removeall-sticky", stSetup, stAlpha, 3, 4},
 		{"link-budget", lbSetup, lbAlpha, 1, 2},
